@@ -39,6 +39,15 @@ var lits = []litDef{
 	{"shared", "x := [1]; ", "[x, x]", func() tengo.Object { x := garr(gi(1)); return garr(x, x) }},
 	{"arr-map-arr", "", "[{k: [1]}]", func() tengo.Object { return garr(gmap("k", garr(gi(1)))) }},
 	{"err-arr", "", "[error([1])]", func() tengo.Object { return garr(&tengo.Error{Value: garr(gi(1))}) }},
+	// a SHALLOW-immutable container with a mutable child, reachable twice
+	{"shared-imm-arr", "x := immutable([[1]]); ", "[x, x]", func() tengo.Object {
+		x := &tengo.ImmutableArray{Value: garr(garr(gi(1))).Value}
+		return garr(x, x)
+	}},
+	{"shared-imm-map", "x := immutable({k: [1]}); ", "{a: x, b: x}", func() tengo.Object {
+		x := &tengo.ImmutableMap{Value: gmap("k", garr(gi(1))).Value}
+		return gmap("a", x, "b", x)
+	}},
 }
 
 func litByName(n string) *litDef {
